@@ -249,6 +249,7 @@ def plan(tier, seed):
         specs.append({"name": f"tok-rand-{i}", "mode": "tok-rand", "n": 120 if tier == "quick" else 4000, "rseed": seed * 31 + i})
     for i in range(4):
         specs.append({"name": f"call-rand-{i}", "mode": "call-rand", "n": 25 if tier == "quick" else 1500, "rseed": seed * 37 + i})
+    specs.append({"name": "deep", "mode": "deep"})
     specs.append({"name": "threads", "mode": "threads", "reps": 3 if tier == "quick" else 40, "rseed": seed})
     specs.append({"name": "alternate", "mode": "alternate", "n": 60 if tier == "quick" else 2000, "rseed": seed})
     return specs
@@ -324,6 +325,50 @@ def run_shard(spec):
                 break
             add(compare(r, progs, solo, s.trace, mode, {"rseed": spec["rseed"], "index": i, "burst": burst, "head": sch[:40]}))
         res["samples"].append({"mode": mode, "programs": [p[1] for p in progs], "executed_steps": len(s.trace), "switches": switches(s.trace)})
+    elif mode == "deep":
+        # process-wide interpreter settings (recursion limit, switch interval, ...) are shared state too: run deep
+        # nests under the interpreter's DEFAULT limits, solo and interleaved, each in a fresh interpreter
+        deep = [("int b = " + "(" * 200 + "1" + ")" * 200 + ";", "deepexpr.c"),
+                ("void f(void) " + "{" * 300 + "}" * 300, "deepblock.c"),
+                ("int x = " + "{" * 400 + "1" + "}" * 400 + ";", "deepinit.c")]
+        short = ("int a;", "short.c")
+        code = ("import sys, json\n"
+                "from vf import sut; sut.load()\n"
+                "from vf.checks import c13\n"
+                "t = json.load(sys.stdin)\n"
+                "progs = [tuple(p) for p in t['progs']]\n"
+                "if t['sched'] is None:\n"
+                "    print(json.dumps([c13.result_key(*p) for p in progs]))\n"
+                "else:\n"
+                "    r, s = c13.run_token_schedule(progs, t['sched'])\n"
+                "    print(json.dumps([r.get(i) for i in range(len(progs))]))\n")
+        root = os.path.dirname(os.path.dirname(os.path.dirname(os.path.abspath(__file__))))
+        env = dict(os.environ, PYTHONHASHSEED="0", PYTHONDONTWRITEBYTECODE="1")
+
+        def fresh(progs, sched):
+            r = subprocess.run([sys.executable, "-c", code], input=json.dumps({"progs": progs, "sched": sched}), capture_output=True,
+                               text=True, cwd=root, env=env, timeout=600)
+            return json.loads(r.stdout) if r.returncode == 0 and r.stdout.strip() else None
+        for d in deep:
+            solo_d = fresh([d], None)
+            solo_s = fresh([short], None)
+            # short parse starts first and ends before the deep one descends / short parse in the middle / at the end
+            for sch in ([0, 1] + [0] * 10 + [1] * 3000, [1] * 50 + [0] * 10 + [1] * 3000, [0] + [1] * 3000 + [0] * 10):
+                got = fresh([short, d], sch)
+                res["evaluations"] += 2
+                cnt["parses"] += 2
+                cnt["schedules"] += 1
+                hs.add(hash((d[1], tuple(sch[:70]))) & ((1 << 56) - 1))
+                if got is None or solo_d is None or solo_s is None:
+                    res["inconclusive"].append({"why": "deep-nest helper process failed", "file": d[1]})
+                    continue
+                for i, (want, g, prog) in enumerate(((solo_s[0], got[0], short), (solo_d[0], got[1], d))):
+                    if g != want:
+                        add([{"kind": "result-differs-from-solo-run", "sig": "deep:" + str(g[0] if g else None),
+                              "case": {"mode": "deep", "programs": [list(short), [d[0][:80] + "...", d[1]]], "schedule": sch[:70]},
+                              "detail": {"file": prog[1], "solo": want, "interleaved": g,
+                                         "note": "run under the interpreter's default recursion limit"}}])
+        res["samples"].append({"mode": "deep", "files": [d[1] for d in deep]})
     elif mode == "threads":
         solo = solo_fresh(LONG)
         old = sys.getswitchinterval()
